@@ -107,7 +107,7 @@ def cases(tier, seed):
     for i in range(nr):
         crng = random.Random(f"C07-{seed}-{i}")
         wr = crng.choice(["interval", "interval", "interval", "tree", "path", "reverse"])
-        add(f"r{i}", kind="random", cfg=bmgen.random_config(crng, wrappers=(wr,)), hseed=crng.randrange(10 ** 9),
+        add(f"r{i}", kind="random", cfg=bmgen.random_config(crng, wrappers=(wr,), offgrid_ends_ok=True), hseed=crng.randrange(10 ** 9),
             cost=1)
     return out
 
